@@ -24,8 +24,10 @@ def main():
     ap.add_argument("--tier", default="quick")
     ap.add_argument("--list", action="store_true")
     ap.add_argument("--scale", default=None)
+    ap.add_argument("--jobs", type=int, default=1)
     args = ap.parse_args()
     results = []
+    todo = []
     for name, props, file, old, new in MUTANTS:
         if args.name and args.name not in name:
             continue
@@ -35,6 +37,11 @@ def main():
             if args.list:
                 print(prop, name)
                 continue
+            todo.append((name, prop, file, old, new))
+
+    def one(item):
+        name, prop, file, old, new = item
+        if True:
             d = tempfile.mkdtemp(prefix="vf-mut-")
             try:
                 shutil.copytree("/repo/jaxtyping", os.path.join(d, "jaxtyping"))
@@ -43,7 +50,7 @@ def main():
                 if src.count(old) < 1:
                     print(f"{prop} {name}: PATTERN-NOT-FOUND")
                     results.append((prop, name, "nopattern"))
-                    continue
+                    return
                 open(p, "w").write(src.replace(old, new, 1))
                 env = dict(os.environ, VF_REPO=d)
                 if args.scale:
@@ -58,6 +65,15 @@ def main():
                 results.append((prop, name, status))
             finally:
                 shutil.rmtree(d, ignore_errors=True)
+
+    if args.jobs > 1:
+        from concurrent.futures import ThreadPoolExecutor
+
+        with ThreadPoolExecutor(args.jobs) as ex:
+            list(ex.map(one, todo))
+    else:
+        for item in todo:
+            one(item)
     # replays written while testing mutants are not findings on the real tree
     subprocess.run(["git", "-C", VERIF, "clean", "-fdq", "replays"], check=False)
     subprocess.run(["git", "-C", VERIF, "checkout", "-q", "--", "evidence"], check=False, capture_output=True)
